@@ -73,18 +73,23 @@ def main():
                 meta["ran"].append("cmake + ninja + ctest of the library's own suite in the scratch worktree with the change applied")
     finally:
         sh("git -C %s worktree remove --force %s" % (REPO, wt)); shutil.rmtree(wt, ignore_errors=True)
-    # 3. our checks against /repo with the change
+    # 3. our checks against a second scratch worktree with the change applied (VERIF_REPO points the checks at it);
+    #    /repo itself is never modified, so several evaluations and ordinary check runs can proceed side by side
     meta["checks"] = {}
     if meta.get("patch_applies"):
-        rc, out = sh("git -C %s status --porcelain" % REPO)
-        if out.strip():
-            print("refusing: /repo is not clean:\n" + out); sys.exit(2)
-        rc, out = sh("git -C %s apply %s" % (REPO, patch))
-        assert rc == 0, out
+        cwt = "/tmp/se-%s-chk" % a.sid
+        sh("git -C %s worktree remove --force %s" % (REPO, cwt)); shutil.rmtree(cwt, ignore_errors=True)
+        rc, out = sh("git -C %s worktree add --detach %s HEAD" % (REPO, cwt)); assert rc == 0, out
+        rc, out = sh("git apply %s" % patch, cwd=cwt); assert rc == 0, out
+        env = dict(os.environ); env["VERIF_REPO"] = cwt; env["VERIF_JOBS"] = a.jobs
         try:
             for c in checks:
                 t0 = time.time()
-                rc, out = sh("./check %s --tier %s" % (c, a.tier), cwd=VERIF, timeout=7200)
+                ev = os.path.join(VERIF, "evidence", c + ".json")
+                saved = open(ev).read() if os.path.exists(ev) else None
+                rc, out = sh("./check %s --tier %s" % (c, a.tier), cwd=VERIF, timeout=7200, env=env)
+                if saved is not None:           # the evidence file was rewritten by a run against a modified tree: put the previous one back
+                    open(ev, "w").write(saved)
                 vio = [l for l in out.split("\n") if l.startswith("VIOLATION")]
                 kinds = []
                 for l in vio[:6]:
@@ -96,11 +101,9 @@ def main():
                             pass
                 meta["checks"][c] = {"rc": rc, "violations": len(vio), "with_failing_input": len([l for l in vio if not l.endswith("no-failing-input-found")]),
                                      "examples": kinds, "wall_s": round(time.time() - t0, 1), "tail": out[-300:]}
-                meta["ran"].append("git -C /repo apply patch.diff; ./check %s --tier %s; git -C /repo checkout -- ." % (c, a.tier))
+                meta["ran"].append("scratch worktree of /repo HEAD + patch.diff; VERIF_REPO=<that worktree> ./check %s --tier %s (same effect as git -C /repo apply ...; check; git checkout)" % (c, a.tier))
         finally:
-            sh("git -C %s checkout -- ." % REPO)
-            # evidence files were rewritten by runs against a modified tree: restore the committed ones
-            sh("git checkout -- evidence", cwd=VERIF)
+            sh("git -C %s worktree remove --force %s" % (REPO, cwt)); shutil.rmtree(cwt, ignore_errors=True)
     valid = (meta.get("patch_applies") and not meta["demo_without_change"]["fails"] and meta.get("demo_with_change", {}).get("fails")
              and (a.skip_ctest or (meta.get("ctest_with_change", {}).get("rc") == 0 and not meta["ctest_with_change"]["failed"])))
     meta["valid_seed"] = bool(valid)
